@@ -3,7 +3,8 @@
 import json, os
 V = os.path.dirname(os.path.dirname(os.path.abspath(__file__)))
 props = [json.loads(l) for l in open(os.path.join(V, "properties.jsonl"))]
-claims = json.load(open(os.path.join(V, "bin", "claims.json")))
+import glob
+claims = {os.path.basename(f)[:-5]: json.load(open(f)) for f in glob.glob(os.path.join(V, "bin", "claims", "*.json"))}
 checks, na = [], []
 for p in props:
     pid = p["id"]
